@@ -92,8 +92,19 @@ package internal
 //@ trusted func ext:encoding/binary.littleEndian.Uint64
 //@   requires len(b) >= 8
 
+// The virtual offset codec (C15): an index file stores each bgzf.Offset as one
+// 64 bit word, file offset in the upper 48 bits and block offset in the lower
+// 16. makeOffset and vOffset are that codec, and they are inverse to each other
+// for every offset the format can hold.
 //@ func makeOffset
 //@   inline
+//@   mode bv
+//@   props C15
+//@   ensures[C15] @fields result.File == int64(vOff >> 16) && result.Block == uint16(vOff)
+//@ lemma[C15] bv offsetdecodeencode: forall v uint64 :: v < (uint64(1) << 63) ==>
+//@     ((int64(v >> 16) << 16) | int64(uint16(v))) == int64(v)
+//@ lemma[C15] bv offsetencodedecode: forall f int64, b uint16 :: (0 <= f && f < (int64(1) << 47)) ==>
+//@     (int64(uint64(f<<16 | int64(b)) >> 16) == f && uint16(uint64(f<<16 | int64(b))) == b)
 //@ func min
 //@   inline
 
@@ -160,6 +171,9 @@ package internal
 //@   inline
 //@ func vOffset
 //@   inline
+//@   mode bv
+//@   props C15
+//@   ensures[C15] @word result == o.File<<16 | int64(o.Block)
 //@ func isZero
 //@   inline
 //@ spec func voff(o bgzf.Offset) int64 = o.File<<16 | int64(o.Block)
